@@ -400,6 +400,23 @@ def r1_key_normalisation(rep, src):
         ('order_after', ['ALPHA', 'beta'], None, None, ['Beta', 'Alpha'], V0),
         ('sort_fields', [None], None, None, ['Beta', 'Alpha'], V0),        # `sorted` is modelled as a fixed permutation (reversal)
     ]
+    # the methods the class inherits from collections.abc.MutableMapping are CPython's; when the class defines one of them ITSELF (an
+    # "optimised" pop / get / setdefault / popitem / update / clear), that definition answers as the inherited one does
+    OWN = [
+        ('pop', ['ALPHA'], 'v-alpha', None, ['Beta'], {'Beta': 'v-beta'}),
+        ('pop', ['Zeta'], None, 'KeyError', ['Alpha', 'Beta'], V0),
+        ('pop', ['Zeta', 'dflt'], 'dflt', None, ['Alpha', 'Beta'], V0),
+        ('pop', ['Zeta', None], None, None, ['Alpha', 'Beta'], V0),
+        ('pop', ['beta', 'dflt'], 'v-beta', None, ['Alpha'], {'Alpha': 'v-alpha'}),
+        ('get', ['ALPHA'], 'v-alpha', None, ['Alpha', 'Beta'], V0),
+        ('get', ['Zeta'], None, None, ['Alpha', 'Beta'], V0),
+        ('get', ['Zeta', 'dflt'], 'dflt', None, ['Alpha', 'Beta'], V0),
+        ('setdefault', ['ALPHA', 'x'], 'v-alpha', None, ['Alpha', 'Beta'], V0),
+        ('setdefault', ['Gamma', 'x'], 'x', None, ['Alpha', 'Beta', 'Gamma'], {'Alpha': 'v-alpha', 'Beta': 'v-beta', 'Gamma': 'x'}),
+        ('clear', [], None, None, [], {}),
+    ]
+    probe_heap = world()[0]
+    cases += [c_ for c_ in OWN if probe_heap.module.method('Deb822Dict', c_[0]) is not None]
     n = 0
     for mname, args, wr, wexc, worder, wvals in cases:
         r, exc, (order, vals, problems), unchanged, fn = run(mname, args)
